@@ -5,6 +5,7 @@ A regex-engine timeout is reported as ("inconclusive", ...), never as a result.
 """
 import atexit
 import os
+import zlib
 import shutil
 import subprocess
 import sys
@@ -112,6 +113,7 @@ def classify_exc(exc):
     return ("exc", type(exc).__name__, msg[:300])
 
 
+CRLF_MOD = 8
 REUSE_MOD = 4  # one call in four (chosen by a hash of the rule text and the modes, so a replay makes the same choice)
 
 
@@ -158,7 +160,15 @@ def match(doc, listing_text, mode="list", search="all", only_addr=False, macros=
     """doc: python object (dumped as YAML) or raw YAML text; listing_text: objdump-format text."""
     s = scratch()
     rp = s.write("rule.yaml", rule_text(doc))
-    lp = s.write("listing.s", listing_text)
+    if CRLF_MOD and isinstance(listing_text, str) and "\r" not in listing_text and zlib.crc32(listing_text.encode("utf-8", "replace")) % CRLF_MOD == 0:
+        # the same listing as a tool on Windows would have saved it: line ends are presentation, the tree under test reads
+        # listings with universal newlines (one listing in eight, chosen by its content, so every mode sees the same file)
+        listing_text = listing_text.replace("\n", "\r\n")
+        lp = s.path("listing.s")
+        with open(lp, "w", newline="") as f:
+            f.write(listing_text)
+    else:
+        lp = s.write("listing.s", listing_text)
     return match_files(rp, lp, mode=mode, search=search, only_addr=only_addr, macros=macros, want_regex=want_regex)
 
 
